@@ -619,6 +619,198 @@ def h_real_e2e(i0: int, r1: int, k1: int) -> bool:
     """
     return run(body_real_e2e, i0, r1, k1)
 
+
+# ------------------------------------------------------------------ full responses: model world vs real stack
+_NS = ('xmlns:D="DAV:" xmlns:C="urn:ietf:params:xml:ns:caldav" xmlns:A="urn:ietf:params:xml:ns:carddav" '
+       'xmlns:I="http://apple.com/ns/ical/" xmlns:S="http://calendarserver.org/ns/"')
+
+
+def _pf(props):
+    return "<D:propfind %s><D:prop>%s</D:prop></D:propfind>" % (_NS, "".join("<%s/>" % p_ for p_ in props))
+
+
+_C = "/user/calendars/cal"
+RR_REQS = [
+    {"m": "PUT", "p": _C + "/a.ics", "tok": "xaq", "ct": "text/calendar"},
+    {"m": "PUT", "p": _C + "/n.ics", "tok": "xn", "ct": "text/calendar; charset=utf-8"},
+    {"m": "PUT", "p": _C + "/n.ics", "tok": "!bad", "ct": "text/calendar"},
+    {"m": "PUT", "p": _C + "/n.ics", "tok": "ya", "ct": "text/calendar"},
+    {"m": "PUT", "p": _C + "/a.ics", "tok": "xa2", "ct": "text/calendar", "h": [["If-Match", '"zz"']]},
+    {"m": "PUT", "p": _C + "/a.ics", "tok": "xa3", "ct": "text/calendar", "h": [["If-Match", '"zz", $ETAG(' + _C + '/a.ics)']]},
+    {"m": "PUT", "p": _C + "/a.ics", "tok": "xa4", "ct": "text/calendar", "h": [["If-None-Match", "*"]]},
+    {"m": "DELETE", "p": _C + "/a.ics"},
+    {"m": "DELETE", "p": _C + "/gone.ics"},
+    {"m": "DELETE", "p": _C + "/a.ics", "h": [["If-Match", '"zz"']]},
+    {"m": "POST", "p": _C + "/", "tok": "xq", "ct": "text/calendar"},
+    {"m": "MKCOL", "p": "/user/calendars/new"},
+    {"m": "MKCALENDAR", "p": _C},
+    {"m": "MKCALENDAR", "p": "/user/calendars/new2",
+     "xml": "<C:mkcalendar %s><D:set><D:prop><D:displayname>N</D:displayname></D:prop></D:set></C:mkcalendar>" % _NS},
+    {"m": "MKCOL", "p": "/user/calendars/new3", "xml": "<D:propertyupdate %s/>" % _NS},
+    {"m": "PROPPATCH", "p": _C + "/",
+     "xml": "<D:propertyupdate %s><D:set><D:prop><D:displayname>Home</D:displayname><I:calendar-color>#00ff00</I:calendar-color>"
+            "</D:prop></D:set></D:propertyupdate>" % _NS},
+    {"m": "PROPPATCH", "p": _C + "/", "xml": "<D:propertyupdate %s><D:remove><D:prop><I:calendar-color/></D:prop></D:remove>"
+                                              "</D:propertyupdate>" % _NS},
+    {"m": "PROPFIND", "p": _C + "/", "h": [["Depth", "1"]],
+     "xml": _pf(["D:getetag", "D:resourcetype", "D:getctag", "S:getctag", "D:displayname", "D:getcontenttype", "D:sync-token",
+                 "I:calendar-color", "D:current-user-principal", "D:owner", "D:supported-report-set"])},
+    {"m": "PROPFIND", "p": "/user/", "h": [["Depth", "1"]],
+     "xml": _pf(["D:resourcetype", "C:calendar-home-set", "A:addressbook-home-set", "D:principal-URL", "D:displayname"])},
+    {"m": "PROPFIND", "p": _C + "/gone.ics", "h": [["Depth", "0"]], "xml": _pf(["D:getetag"])},
+    {"m": "PROPFIND", "p": _C + "/", "h": [["Depth", "0"]], "xml": "<D:propfind %s><D:propname/></D:propfind>" % _NS},
+    {"m": "GET", "p": _C + "/a.ics"},
+    {"m": "GET", "p": _C + "/a.ics", "h": [["If-None-Match", '"zz", $ETAG(' + _C + '/a.ics)']]},
+    {"m": "HEAD", "p": _C + "/a.ics"},
+    {"m": "GET", "p": _C + "/gone.ics"},
+    {"m": "OPTIONS", "p": _C + "/"},
+    {"m": "REPORT", "p": _C + "/", "xml": "<D:sync-collection %s><D:sync-token/><D:sync-level>1</D:sync-level><D:prop><D:getetag/>"
+                                         "</D:prop></D:sync-collection>" % _NS},
+    {"m": "REPORT", "p": _C + "/", "xml": "<D:sync-collection %s><D:sync-token>0000000000000000000000000000000000000000</D:sync-token>"
+                                         "<D:sync-level>1</D:sync-level><D:prop><D:getetag/></D:prop></D:sync-collection>" % _NS},
+    {"m": "REPORT", "p": _C + "/", "xml": "<C:calendar-multiget %s><D:prop><D:getetag/></D:prop><D:href>" % _NS + _C +
+                                         "/a.ics</D:href><D:href>" + _C + "/gone.ics</D:href><D:href>/user/contacts/ab/c.vcf</D:href>"
+                                         "</C:calendar-multiget>"},
+    {"m": "REPORT", "p": "/user/contacts/ab/", "xml": "<A:addressbook-multiget %s><D:prop><D:getetag/></D:prop><D:href>/user/contacts/ab/"
+                                                      "c.vcf</D:href></A:addressbook-multiget>" % _NS},
+    {"m": "PUT", "p": "/user/contacts/ab/n.vcf", "tok": "v9", "ct": "text/vcard"},
+    {"m": "PUT", "p": "/user/contacts/ab/n.vcf", "tok": "!bad", "ct": "text/vcard"},
+]
+
+
+def _norm_response(rec, ids):
+    """Comparable form of a raw answer: ids (etags, ctags, tokens - 40 hex digits on the real side, interned ids in
+    the model) become their order of first appearance within the script, uuids a placeholder; XML is compared as a
+    tree, a member body as its token, free-text bodies not at all."""
+    import re
+    import xml.etree.ElementTree as ET_
+
+    def ident(text):
+        def sub(m):
+            k = m.group(0)
+            if k not in ids:
+                ids[k] = "#%d" % len(ids)
+            return ids[k]
+        text = re.sub(r"[0-9a-f]{8}-[0-9a-f]{4}-[0-9a-f]{4}-[0-9a-f]{4}-[0-9a-f]{12}", "<uuid>", text)
+        return re.sub(r"\b[0-9a-f]{40}\b|\b[btc][0-9]+\b", sub, text)
+
+    hdr = {k: ident(v) for k, v in rec["h"].items() if k != "DAV"}
+    if "Allow" in hdr:
+        hdr["Allow"] = ",".join(sorted(x.strip() for x in hdr["Allow"].split(",")))
+    body = rec["b"]
+    if body.startswith("TOKEN:"):
+        nb = body
+    elif body.lstrip().startswith("<"):
+        UU = r"[0-9a-f]{8}-[0-9a-f]{4}-[0-9a-f]{4}-[0-9a-f]{4}-[0-9a-f]{12}"
+
+        def tree(e):
+            kids = list(e)
+            if e.tag == "{DAV:}multistatus":
+                # the order of responses follows directory order; a server-invented (uuid) name sorts differently on
+                # every run: compare as a set ordered by href
+                kids.sort(key=lambda c: re.sub(UU, "~uuid", (c.findtext("{DAV:}href") or "~")))
+            return (e.tag, tuple(sorted(e.attrib.items())), ident((e.text or "").strip()), tuple(tree(c) for c in kids))
+        try:
+            nb = tree(ET_.fromstring(body.encode("latin-1")))
+        except ET_.ParseError:
+            nb = "unparseable-xml"
+    else:
+        nb = "text" if body else ""
+    return (rec["st"], tuple(sorted(hdr.items())), nb)
+
+
+def _model_raw_script(script):
+    """The same raw script through the REAL WSGI entry point over the MODEL world (nothing stubbed above the file
+    system / dulwich / file-class boundary: real XML parsing and serialisation)."""
+    import re
+    from xv.env import mhttp
+    mweb.fresh_world({"a.ics": b"xa", "b.ics": b"xb"}, {"c.vcf": b"v1"}, cfg="file")
+    app = mweb.make_app()
+
+    def request(method, path, body=b"", ctype=None, headers=()):
+        env = mhttp.wsgi_environ(method, path, script_name="", headers=list(headers), body=body,
+                                 content_type=ctype if ctype else "application/octet-stream")
+        if not ctype:
+            env.pop("CONTENT_TYPE", None)
+        out = {}
+
+        def start_response(status, hdrs, exc_info=None):
+            out["status"], out["headers"] = status, dict(hdrs)
+        try:
+            out["body"] = b"".join(app.handle_wsgi_request(env, start_response) or [])
+        except Exception as e:
+            out["status"], out["headers"], out["body"] = "500 " + type(e).__name__, {}, b""
+        return out
+
+    res = []
+    for rq in script:
+        headers = []
+        for k, v in rq.get("h", []):
+            m = re.match(r"^(.*)\$ETAG\(([^)]*)\)(.*)$", v)
+            if m:
+                cur = request("HEAD", m.group(2))
+                et = cur["headers"].get("ETag") if cur["status"].startswith("2") else '"none"'
+                v = m.group(1) + et + m.group(3)
+            headers.append((k, v))
+        if "xml" in rq:
+            body, ct = rq["xml"].encode("utf-8"), rq.get("ct", "text/xml")
+        elif "tok" in rq:
+            body, ct = rq["tok"].encode("latin-1"), rq.get("ct")
+        else:
+            body, ct = b"", rq.get("ct")
+        r = request(rq["m"], rq["p"], body, ct, headers)
+        b = r["body"]
+        if rq["m"] == "GET" and r["status"].startswith("200") and not rq["p"].endswith("/"):
+            b = b"TOKEN:" + b
+        if r["status"].startswith("500"):
+            b = b""
+        keep = {k: v for k, v in r["headers"].items() if k in ("ETag", "Location", "Allow", "DAV")}
+        res.append({"st": int(r["status"].split(" ")[0]), "h": keep, "b": b.decode("latin-1")})
+    return res
+
+
+def body_real_responses(r1, r2):
+    """FULL answers (status code, ETag / Location / Allow headers, the XML body as a tree, member bodies) of
+    three-request scripts - two requests chosen by the solver from a menu of %d (writes with every kind of refusal,
+    creation with and without bodies, PROPPATCH, PROPFIND of many properties, GET / HEAD / OPTIONS, three kinds of
+    REPORT), then every menu entry as the third - through the real WSGI entry point over the MODEL world and over
+    REAL on-disk repositories: identical up to the naming of ids.  Nothing above the file-system / dulwich / file-class
+    boundary is stubbed on either side, so this validates that boundary (and, with the other harnesses' stubs for XML
+    in and out being thin wrappers of the same functions, what they build on)."""
+    from xv.core import picks, untraced
+    q1, q2 = picks((r1, r2), (RR_REQS, RR_REQS))
+    with untraced():
+        import json
+        import os
+        import subprocess
+        import xv
+        scripts = [[q1, q2, q3] for q3 in RR_REQS]
+        job = {"raw": True, "cal": {"a.ics": "xa", "b.ics": "xb"}, "ab": {"c.vcf": "v1"}, "scripts": scripts}
+        p = subprocess.run(["/venv/bin/python", os.path.join(os.path.dirname(__file__), "..", "real_e2e.py")],
+                           input=json.dumps(job), capture_output=True, text=True, cwd=xv.REPO,
+                           env={"PATH": os.environ.get("PATH", ""), "PYTHONPATH": xv.REPO}, timeout=900)
+        if p.returncode != 0:
+            raise RuntimeError("real stack driver failed: " + p.stderr[-600:])
+        for script, real in zip(scripts, json.loads(p.stdout)):
+            model = _model_raw_script(script)
+            ids_r, ids_m = {}, {}
+            for k, (rr, mr) in enumerate(zip(real, model)):
+                a, b = _norm_response(rr, ids_r), _norm_response(mr, ids_m)
+                if a != b:
+                    ctx.LAST_EXC = "request %d of %r\n real: %r\nmodel: %r" % (
+                        k, [(x["m"], x["p"]) for x in script], a, b)
+                    return (False, "response-differs")
+        return (True, "same:" + q1["m"])
+body_real_responses.__doc__ = body_real_responses.__doc__ % len(RR_REQS)
+
+
+def h_real_responses(r1: int, r2: int) -> bool:
+    """
+    pre: 0 <= r1 < len(RR_REQS) and 0 <= r2 < len(RR_REQS)
+    post: _
+    """
+    return run(body_real_responses, r1, r2)
+
 _B = {"quick": {"n": 2, "blen": 2}, "thorough": {"n": 3, "blen": 3}}
 _WEB_PARTS_Q = [("PUT", False, "/"), ("PUT", True, "/dav/"), ("DELETE", False, "/"), ("DELETE", True, "/"),
                 ("POST", False, "/"), ("POST", True, "/dav/"), ("GET", True, "/")]
@@ -699,6 +891,16 @@ HARNESSES = [
                      "xandikos.store.git.BareGitStore._import_one", "xandikos.store.git.TreeGitStore._import_one",
                      "xandikos.store.git.GitStore._check_duplicate", "xandikos.store.git.GitStore._scan_uids",
                      "xandikos.web.open_store_from_path"]),
+    Harness("real_responses", h_real_responses, body_real_responses, classes=[("same:PUT", None), ("same:PROPFIND", None)],
+            bounds=_B, budget={"quick": 150, "thorough": 1500}, per_path_timeout={"quick": 120, "thorough": 120},
+            twin_budget={"quick": 60, "thorough": 200},
+            describe="full answers (status code, ETag / Location / Allow, XML bodies as trees, member bodies) of three-request "
+                     "scripts from a menu of %d requests through the real WSGI entry point over the MODEL world and over REAL "
+                     "on-disk repositories: identical up to the naming of ids (nothing stubbed above the file-system / dulwich "
+                     "/ file-class boundary on either side)" % len(RR_REQS),
+            encodes=["xandikos.web.XandikosApp.handle_wsgi_request", "xandikos.webdav._readXmlBody", "xandikos.webdav._send_dav_responses",
+                     "xandikos.webdav._send_xml_response", "xandikos.webdav.Status.aselement", "xandikos.webdav.PropfindMethod.handle",
+                     "xandikos.webdav.ReportMethod.handle", "xandikos.webdav.ProppatchMethod.handle", "xandikos.webdav.OptionsMethod.handle"]),
     Harness("real_e2e", h_real_e2e, body_real_e2e, classes=[("first:PUT", None), ("first:DELETE", None)],
             bounds=_B, budget={"quick": 150, "thorough": 1500}, per_path_timeout={"quick": 120, "thorough": 120},
             twin_budget={"quick": 60, "thorough": 120},
